@@ -150,7 +150,17 @@ func (this *Hnsw) Load(r io.Reader, header bool) error {
 	var distance float32
 
 	uuidBuf := make([]byte, uuid.Size)
-	if _, err := r.Read(uuidBuf); err != nil {
+	if n, err := r.Read(uuidBuf); err != nil {
+		if err == io.EOF && n == 0 {
+			// Save writes nothing for an empty index
+			for i, _ := range this.vertices {
+				this.vertices[i] = make(map[uuid.UUID]*hnswVertex)
+			}
+			this.len = 0
+			this.bytesSize = 0
+			atomic.StorePointer(&this.entrypoint, nil)
+			return nil
+		}
 		return err
 	}
 	entrypointId, err := uuid.FromBytes(uuidBuf)
